@@ -16,6 +16,12 @@ EXTRA = {
     "C14": "Note: tests/test_clf_pn532.py cannot be run on its own in this sandbox (it patches sys.platform); run the other tests/test_clf_*.py files and compare failing sets with the unchanged code.",
 }
 HINTS = {
+    6: ("For this round pick a code site and a kind of mistake that are DIFFERENT from the ones above.  Look for what nobody "
+        "tried yet: a *default value* or constant changed by a refactoring; state that must be RESET between two uses of the "
+        "same object (second connection, second message, re-activation); an ordering requirement between two writes/sends; a "
+        "unit mix-up (bits/bytes, ms/s, blocks/bytes); a comparison on the wrong side of a conversion; clean-up in a `finally` "
+        "or `except` branch; a property/getter that is also used internally; behaviour at the exact maximum a protocol field "
+        "allows."),
     4: ("For this round pick a code site and a kind of mistake that are DIFFERENT from the ones above.  Prefer: code in one of the "
         "anchored files that none of the earlier ideas touched; an *interaction* (state left behind by one call that a later call "
         "relies on); a less common but valid configuration value; error-path clean-up; the second of two symmetric code paths; "
